@@ -256,6 +256,10 @@ def run_harness(binary, lines, timeout=900, jobs=None):
     Returns one list of observation lines per case; a crashed process yields
     ['CRASH <status>'] for the case it died in and the rest are re-run."""
     jobs = jobs or NCPU
+    if os.environ.get("VERIF_SAVE_LINES"):
+        # analysis aid (coverage of the repository under the generated inputs): keep the case lines given to each harness binary
+        with open(os.path.join(os.environ["VERIF_SAVE_LINES"], os.path.basename(binary) + ".lines"), "a") as f:
+            f.write("\n".join(lines) + "\n")
     n = len(lines)
     size = max(1, (n + jobs - 1) // jobs)
     shards = [(i, lines[i:i + size]) for i in range(0, n, size)]
